@@ -48,6 +48,7 @@ func verifNewQStore() *vQStore {
 	s.AddMapSymbol("tags", ast.NodeTypeAnyType, "tags")
 	s.AddSetSymbol("roles", ast.NodeTypeString)
 	s.AddSetSymbol("nums", ast.NodeTypeInt64)
+	s.AddPublicSetSymbol("pubset", ast.NodeTypeString)
 	s.AddFkSymbol("boss", s)
 	s.AddFkSetSymbol("reports", s)
 	return s
@@ -103,6 +104,7 @@ var vPubProgs = []vPubProg{
 	{`tags.a.b.c != null and s = "x"`, []string{"tags.a.b.c", "s"}},
 	{`true sort by tags.a.b`, []string{"tags.a.b"}},
 	{`anyOf(roles) = "a"`, []string{"roles"}},
+	{`anyOf(pubset) = "a" and count(pubset) > 0`, []string{"pubset"}},
 	{`allOf(roles) != "a"`, []string{"roles"}},
 	{`anyOf(roles) in ["a", "b"]`, []string{"roles"}},
 	{`anyOf(roles) contains "a"`, []string{"roles"}},
@@ -148,6 +150,12 @@ func init() {
 func VerifC20_PublicSymbolValidation() {
 	p := vPubProgs[verifrt.Choose("program", len(vPubProgs))]
 	store := verifNewQStore()
+	// a set symbol added as public is public from the start and listed as such
+	listed := false
+	for _, name := range store.GetPublicSymbols() {
+		listed = listed || name == "pubset"
+	}
+	verifrt.Assert(store.IsPublicSymbol("pubset") && listed, "C20 a symbol added with AddPublicSetSymbol is public and listed by GetPublicSymbols")
 	// start from "nothing public", then publish per symbolic bit
 	for k := range store.publicSymbols {
 		delete(store.publicSymbols, k)
